@@ -172,7 +172,7 @@ MULTI = ['Payment Date', 'Debit Date', 'Merchant City', 'Payee Name', 'Date of P
 
 
 def gen_header(rnd):
-    n = rnd.randint(3, 9)
+    n = rnd.randint(3, 9) if rnd.random() < .9 else rnd.choice([17, 18, 20, 24, 30])
     cells = []
     pools = [DATE_H, DESC_H, AMT_H]
     rnd.shuffle(pools)
@@ -309,6 +309,9 @@ def run(rec, shard, nshards, t):
     # random wider arrangements
     for _ in range((1500 if t == 'quick' else 40000) // nshards):
         w = rnd.randint(W + 1, 12)
+        if rnd.random() < .12:
+            w = rnd.choice([16, 17, 18, 19, 24, 33, 41, 64, 100])      # bank and payment-processor exports with dozens of columns
+            rec.count('wide_arrangements')
         base = ['date', 'amount'] + rnd.choice([['description'], ['ca'], ['ca', 'cb'], ['description', 'ca'], ['description', 'location']])
         if rnd.random() < .15:
             base.append(rnd.choice(['date', 'amount', 'description', 'location', 'ca']))   # duplicate
